@@ -30,6 +30,7 @@ type Mix struct {
 	Identity    bool
 	Ceremony    bool
 	NoGodChange bool // leave ChangeGodAddressTx out of the mix
+	Contracts   int  // 1-in-N transactions are contract deployments/calls/terminations (0 = none)
 }
 
 func (s *Scn) stateNonce(n *simnode.Node, a common.Address) (uint32, uint16) {
